@@ -208,6 +208,32 @@ def run(ctx):
                 cls.clear_caches()
             if accepts(cls, sch):
                 violations.append({"signature": "isolation:%s" % kind, "what": "the %s accepts a %s defined on another subclass" % (who, kind), "replay": rp})
+    # siblings (and a grandchild) that define a rule of the SAME name with different argument schemas: each class
+    # checks constraints against its own declaration, whatever was defined or used before
+    def mk(name, parent, doc):
+        def _validate_limit(self, constraint, field, value):
+            pass
+        _validate_limit.__doc__ = doc
+        return type(name, (parent,), {'_validate_limit': _validate_limit})
+    decls = [("{'type': 'integer'}", 5, 'x'), ("{'type': 'string'}", 'x', 5), ("{'type': 'list'}", [1], 5), ("{'type': 'boolean'}", True, 'x')]
+    for i in range(30 if not thorough else 300):
+        (d1, ok1, bad1), (d2, ok2, bad2) = rng.sample(decls, 2)
+        parent = rng.choice([cerberus.Validator, pool.PoolValidator])
+        A = mk('LimitA%d' % i, parent, d1)
+        B = mk('LimitB%d' % i, rng.choice([parent, A]), d2)     # a sibling, or a grandchild overriding the rule
+        wrap = rng.choice([lambda r: {'f': r}, lambda r: {'f': {'type': 'list', 'schema': r}},
+                           lambda r: {'f': {'type': 'dict', 'schema': {'g': r}}}, lambda r: {'f': {'type': 'dict', 'valuesrules': r}}])
+        order = [(A, ok1, True), (A, bad1, False), (B, ok2, True), (B, bad2, False)]
+        rng.shuffle(order)
+        for cls, cons, expect in order:
+            cases += 1
+            dist["same-name-rule"] += 1
+            got = accepts(cls, wrap({'limit': cons}))
+            if got != expect:
+                violations.append({"signature": "same-name-rule:" + ("availability" if expect else "isolation"),
+                                   "what": "%s (rule `limit` declared %s) %s the constraint %r" % (
+                                       cls.__name__, d1 if cls is A else d2, "rejects" if expect else "accepts", cons),
+                                   "replay": {"decl_a": d1, "decl_b": d2, "constraint": common.jval(cons), "class": cls.__name__}})
     return {"violations": violations, "cases": cases, "nontrivial": len(distinct), "model_cases": 0, "disagreements_checked": 0,
             "samples": samples, "distribution": dict(dist),
             "rule": "per case a fresh subclass (custom rule, type, coercer, default setter, check_with method; every extension records the class and the extra "
